@@ -22,9 +22,9 @@ import (
 // sequences, de-duplicated on the canonical model state.
 
 type csEvent struct {
-	K    string `json:"k"` // pushop pushpr find rm evict
-	A    int64  `json:"a,omitempty"`
-	Bv   int64  `json:"b,omitempty"`
+	K  string `json:"k"` // pushop pushpr find rm evict
+	A  int64  `json:"a,omitempty"`
+	Bv int64  `json:"b,omitempty"`
 }
 
 func (e csEvent) String() string {
@@ -431,15 +431,30 @@ func c20LRU(env *Env, res *Result) {
 var c20HSpec = &HSpec{ID: "C20",
 	Scenarios: func(tier string) []*hist.Scenario {
 		var out []*hist.Scenario
+		add := func(f family, op string, y int, ti [2]int64) {
+			out = append(out, &hist.Scenario{Name: fmt.Sprintf("c20/snapcache/%s/%s/snap%d-%d/N1L1K2Y%dE1", f.name, op, ti[0], ti[1], y),
+				N: 1, Late: 1, Init: f.init, Alphabet: []string{op}, K: 2, Y: y, Env: []string{"evict"}, E: 1,
+				Cfg: hist.Config{Threshold: ti[0], Interval: ti[1]}})
+		}
+		// N1L1K2Y2E1 is 2.1k histories per kind, N1L1K2Y3E1 9.0k; every history runs twice (two variants)
 		for _, f := range coreFamilies() {
 			for i, op := range f.ops {
 				if tier == "quick" && i%3 != 0 {
 					continue
 				}
-				for _, ti := range [][2]int64{{1, 1}, {2, 2}} {
-					out = append(out, &hist.Scenario{Name: fmt.Sprintf("c20/snapcache/%s/%s/snap%d-%d/N1L1K2Y3E1", f.name, op, ti[0], ti[1]),
-						N: 1, Late: 1, Init: f.init, Alphabet: []string{op}, K: 2, Y: 3, Env: []string{"evict"}, E: 1,
-						Cfg: hist.Config{Threshold: ti[0], Interval: ti[1]}})
+				add(f, op, 2, [2]int64{1, 1})
+				if tier == "thorough" || i == 0 {
+					add(f, op, 2, [2]int64{2, 2})
+				}
+			}
+		}
+		if tier == "thorough" {
+			for _, f := range coreFamilies() {
+				for i, op := range f.ops {
+					if i%3 == 0 {
+						add(f, op, 3, [2]int64{1, 1})
+						add(f, op, 3, [2]int64{2, 2})
+					}
 				}
 			}
 		}
@@ -543,7 +558,7 @@ func init() {
 			"states = canonical change-store states, transitions = executed (path,event) pairs",
 		Assume: []string{"the glue inside mongo/client.go cannot run without MongoDB: its ChangeStore call pattern is reproduced by the harness", "TTL expiry is owned by a third-party janitor goroutine on the real clock and is not explored (TTL set to 1h)",
 			"ChangeStore.ranges is unexported: disjointness of merged ranges is observed only through fetcher calls"},
-		QuickBudget: 150 * time.Second,
+		QuickBudget: 300 * time.Second,
 		Run:         c20Run,
 		Reproduce: func(f *Found) (bool, error) {
 			if f.Hist != nil {
